@@ -787,7 +787,7 @@ func doneCallCtx(v ssa.Value) ssa.Value {
 
 func (c *FnCtx) execSelect(x *ssa.Select, st *State) {
 	// nondeterministic choice; received values arbitrary
-	c.g.note("select modelled as a nondeterministic choice with arbitrary received values; a chosen send sets $Sent, a chosen receive from ctx.Done() means that context is done")
+	c.g.note("select modelled as a nondeterministic choice with arbitrary received values; a chosen send sets $Sent, the chosen case i sets $Sel<i>, a chosen receive from ctx.Done() means that context is done")
 	n := len(x.States)
 	idx := c.fresh("selidx", SInt)
 	lo := tZero
@@ -806,6 +806,10 @@ func (c *FnCtx) execSelect(x *ssa.Select, st *State) {
 		}
 	}
 	c.setGhost(st, "Sent", sent)
+	// $Sel<i>: the i-th case (in source order) of the most recent select was the one taken
+	for i := range x.States {
+		c.setGhost(st, fmt.Sprintf("Sel%d", i), eq(idx, intLit(int64(i))))
+	}
 	tup := []Val{{kind: vTerm, t: idx}, {kind: vTerm, t: c.fresh("selok", SBool)}}
 	tt := x.Type().(*types.Tuple)
 	for i := 2; i < tt.Len(); i++ {
@@ -877,7 +881,8 @@ func (c *FnCtx) checkEffects(st *State, reach Term, results []TV) {
 	for _, k := range keys {
 		v := st.heaps[k]
 		ev := c.heap(c.entry, k, SBool)
-		if v.S == ev.S || hav[k] {
+		if v.S == ev.S || hav[k] || strings.HasPrefix(k, "GH_Sel") {
+			// ($Sel<i> is local to an activation: callers never see it)
 			continue
 		}
 		name := "$" + k[3:]
